@@ -338,8 +338,166 @@ let run_transcode (payload : string) : string =
        | M.PumpErr -> "err")
   | _ -> failwith "bad transcode payload"
 
+(* ---------- s-expressions and the object-layer descriptors ------------------------ *)
+type sx = A of string | L of sx list
+
+let parse_sx (s : string) : sx list =
+  let n = String.length s in
+  let rec items i acc =
+    if i >= n then (List.rev acc, i)
+    else match s.[i] with
+      | ' ' | '\t' -> items (i + 1) acc
+      | '(' -> let (l, j) = items (i + 1) [] in items j (L l :: acc)
+      | ')' -> (List.rev acc, i + 1)
+      | _ ->
+          let j = ref i in
+          while !j < n && s.[!j] <> ' ' && s.[!j] <> '(' && s.[!j] <> ')' && s.[!j] <> '\t' do incr j done;
+          items !j (A (String.sub s i (!j - i)) :: acc) in
+  fst (items 0 [])
+
+let ikind_of = function
+  | "i8" -> M.I8 | "i16" -> M.I16 | "i32" -> M.I32 | "i64" -> M.I64 | "i" -> M.IInt
+  | "u8" -> M.U8 | "u16" -> M.U16 | "u32" -> M.U32 | "u64" -> M.U64 | "u" -> M.UInt | "up" -> M.UPtr
+  | k -> failwith ("ikind " ^ k)
+
+let rec gtype_of (x : sx) : M.gtype =
+  match x with
+  | A "b" -> M.GBool | A "f32" -> M.GF32 | A "f64" -> M.GF64 | A "s" -> M.GStr | A "x" -> M.GBytes
+  | A "a" -> M.GAny | A "bad" -> M.GBad
+  | A k -> M.GNum (ikind_of k)
+  | L [A "X"; A n] -> M.GByteArr (nat_of_int (int_of_string n))
+  | L [A "sl"; t] -> M.GSlice (gtype_of t)
+  | L [A "ar"; A n; t] -> M.GArr (nat_of_int (int_of_string n), gtype_of t)
+  | L [A "mp"; k; v] -> M.GMap (gtype_of k, gtype_of v)
+  | L [A "pt"; t] -> M.GPtr (gtype_of t)
+  | L [A "st"; A id] -> M.GStruct (z_of_dec id)
+  | L [A "nm"; A id; t] -> M.GNamed (z_of_dec id, gtype_of t)
+  | L [A "if"; A id] -> M.GIface (z_of_dec id)
+  | _ -> failwith "bad type"
+
+let hexarg (s : string) : M.z list = if s = "-" then [] else bytes_of_hex s
+
+let rec gval_of (x : sx) : M.gval =
+  match x with
+  | L [A "b"; A v] -> M.GVBool (v = "1")
+  | L [A "n"; A v] -> M.VNum (z_of_dec v)
+  | L [A "f"; A v] -> M.GVFlt (z_of_hex v)
+  | L [A "s"; A v] -> M.GVStr (hexarg v)
+  | L [A "x"; A "nil"] -> M.VBytes None
+  | L [A "x"; A v] -> M.VBytes (Some (hexarg v))
+  | L [A "X"; A v] -> M.VByteArr (hexarg v)
+  | L [A "X"] -> M.VByteArr []
+  | L [A "sl"; A "nil"] -> M.VSlice None
+  | L (A "sl" :: items) -> M.VSlice (Some (List.map gval_of items))
+  | L (A "ar" :: items) -> M.GVArr (List.map gval_of items)
+  | L [A "mp"; A "nil"] -> M.GVMap None
+  | L (A "mp" :: ents) -> M.GVMap (Some (List.map (function L [k; v] -> (gval_of k, gval_of v) | _ -> failwith "bad map entry") ents))
+  | L [A "pt"; A "nil"] -> M.VPtr None
+  | L [A "pt"; v] -> M.VPtr (Some (gval_of v))
+  | L [A "a"; A "nil"] -> M.VAny None
+  | L [A "a"; t; v] -> M.VAny (Some (gtype_of t, gval_of v))
+  | L (A "st" :: fs) -> M.VStruct (List.map gval_of fs)
+  | _ -> failwith "bad value"
+
+let hex_or_dash_b (bs : M.z list) = if bs = [] then "-" else hex_of_bytes bs
+
+let ikind_name = function
+  | M.I8 -> "i8" | M.I16 -> "i16" | M.I32 -> "i32" | M.I64 -> "i64" | M.IInt -> "i"
+  | M.U8 -> "u8" | M.U16 -> "u16" | M.U32 -> "u32" | M.U64 -> "u64" | M.UInt -> "u" | M.UPtr -> "up"
+
+let rec print_gtype (t : M.gtype) : string =
+  match t with
+  | M.GBool -> "b" | M.GF32 -> "f32" | M.GF64 -> "f64" | M.GStr -> "s" | M.GBytes -> "x" | M.GAny -> "a" | M.GBad -> "bad"
+  | M.GNum k -> ikind_name k
+  | M.GByteArr n -> Printf.sprintf "(X %d)" (int_of_nat n)
+  | M.GSlice t -> "(sl " ^ print_gtype t ^ ")"
+  | M.GArr (n, t) -> Printf.sprintf "(ar %d %s)" (int_of_nat n) (print_gtype t)
+  | M.GMap (k, v) -> "(mp " ^ print_gtype k ^ " " ^ print_gtype v ^ ")"
+  | M.GPtr t -> "(pt " ^ print_gtype t ^ ")"
+  | M.GStruct id -> "(st " ^ dec_of_z id ^ ")"
+  | M.GNamed (id, u) -> "(nm " ^ dec_of_z id ^ " " ^ print_gtype u ^ ")"
+  | M.GIface id -> "(if " ^ dec_of_z id ^ ")"
+
+(* values are printed like the harness prints them: map entries sorted by their rendering *)
+let rec print_gval (v : M.gval) : string =
+  match v with
+  | M.GVBool b -> if b then "(b 1)" else "(b 0)"
+  | M.VNum z -> "(n " ^ dec_of_z z ^ ")"
+  | M.GVFlt b -> "(f " ^ hex16_of_z b ^ ")"
+  | M.GVStr s -> "(s " ^ hex_or_dash_b s ^ ")"
+  | M.VBytes None -> "(x nil)"
+  | M.VBytes (Some s) -> "(x " ^ hex_or_dash_b s ^ ")"
+  | M.VByteArr s -> "(X " ^ hex_or_dash_b s ^ ")"
+  | M.VSlice None -> "(sl nil)"
+  | M.VSlice (Some l) -> "(" ^ String.concat " " ("sl" :: List.map print_gval l) ^ ")"
+  | M.GVArr l -> "(" ^ String.concat " " ("ar" :: List.map print_gval l) ^ ")"
+  | M.GVMap None -> "(mp nil)"
+  | M.GVMap (Some es) ->
+      let ents = List.sort compare (List.map (fun (k, x) -> "(" ^ print_gval k ^ " " ^ print_gval x ^ ")") es) in
+      "(" ^ String.concat " " ("mp" :: ents) ^ ")"
+  | M.VPtr None -> "(pt nil)"
+  | M.VPtr (Some x) -> "(pt " ^ print_gval x ^ ")"
+  | M.VAny None -> "(a nil)"
+  | M.VAny (Some (t, x)) -> "(a " ^ print_gtype t ^ " " ^ print_gval x ^ ")"
+  | M.VStruct fs -> "(" ^ String.concat " " ("st" :: List.map print_gval fs) ^ ")"
+  | M.VBadV -> "?"
+
+let env_of (x : sx) : (M.z * M.gtype list) list =
+  match x with
+  | L (A "env" :: ds) -> List.map (function L (A id :: fs) -> (z_of_dec id, List.map gtype_of fs) | _ -> failwith "bad env") ds
+  | _ -> failwith "bad env"
+
+let atlas_of (x : sx) : M.atlas =
+  match x with
+  | L (A "atlas" :: A mode :: es) ->
+      let entry = function
+        | L [A "e"; t; A tag; k] ->
+            let kind = match k with
+              | L (A "smap" :: fs) ->
+                  M.EStruct (List.map (function
+                      | L [A "fld"; A name; L route; ft; A omit; A ign] ->
+                          { M.fe_name = hexarg name;
+                            M.fe_route = List.map (function A i -> nat_of_int (int_of_string i) | _ -> failwith "route") route;
+                            M.fe_type = gtype_of ft; M.fe_omit = (omit = "1"); M.fe_ignore = (ign = "1") }
+                      | _ -> failwith "bad fld") fs)
+              | L [A "tr"; A kind; w] -> M.ETransform (z_of_dec kind, gtype_of w)
+              | L (A "un" :: ms) -> M.EUnion (List.map (function L [A name; mt] -> (hexarg name, gtype_of mt) | _ -> failwith "bad member") ms)
+              | L [A "mm"; A m] -> M.EMapMorphism (z_of_dec m)
+              | _ -> failwith "bad entry kind" in
+            { M.ae_type = gtype_of t; M.ae_tag = (if tag = "-" then None else Some (z_of_dec tag)); M.ae_kind = kind }
+        | _ -> failwith "bad entry" in
+      { M.a_entries = List.map entry es; M.a_mode = z_of_dec mode }
+  | _ -> failwith "bad atlas"
+
+(* obj-marshal: "<env> <atlas> <type> <value>" *)
+let run_obj_marshal (payload : string) : string =
+  match parse_sx payload with
+  | [e; a; t; v] ->
+      (match M.marshal_top (env_of e) (atlas_of a) (gtype_of t) (gval_of v) with
+       | M.MOk ts -> Printf.sprintf "ok %d | %s" (List.length ts) (print_tokens ts)
+       | M.MErr [] -> "binderr 0 | "
+       | M.MErr ts -> Printf.sprintf "err %d | %s" (List.length ts) (print_tokens ts)
+       | M.MFuel -> "fuel")
+  | _ -> failwith "bad obj-marshal payload"
+
+(* obj-unmarshal: "<env> <atlas> <type> | <tokens>" *)
+let run_obj_unmarshal (payload : string) : string =
+  let i = String.index payload '|' in
+  let head = String.sub payload 0 i and toks = String.sub payload (i + 1) (String.length payload - i - 1) in
+  match parse_sx head with
+  | [e; a; t] ->
+      (match M.unmarshal_top (env_of e) (atlas_of a) (gtype_of t) (parse_tokens toks) with
+       | M.UTBindErr -> "binderr"
+       | M.UTDone (n, v) -> Printf.sprintf "done %d %s" (int_of_nat n) (print_gval v)
+       | M.UTErr n -> Printf.sprintf "err %d" (int_of_nat n)
+       | M.UTStarved -> "starved"
+       | M.UTFuel -> "fuel")
+  | _ -> failwith "bad obj-unmarshal payload"
+
 let dispatch (suite : string) (payload : string) : string =
   match suite with
+  | "obj-marshal" -> run_obj_marshal payload
+  | "obj-unmarshal" -> run_obj_unmarshal payload
   | "transcode" -> run_transcode payload
   | "wfault" -> run_wfault payload
   | "rfault" -> run_rfault payload
